@@ -222,7 +222,7 @@ def run_harnesses(res, cfg, sc, tier, overlay_done=False):
         ov = overlay(sc)
         res.log["kani_overlay"] = ov
     # group by stubbing flag; heavy harnesses run alone in parallel groups via -j
-    jobs = int(os.environ.get("VERIF_JOBS", "12"))
+    jobs = int(os.environ.get("VERIF_JOBS", "8"))
     results = {}
     if any(h.get("crate") == "ext" for h in want):
         ext = os.path.join(sc.dir, "ext")
